@@ -219,12 +219,18 @@ def gen_table(rng):
 
     rows = []
     shared = [stamp(), stamp()]
+    mode = rng.random()
+    pool = PRI_POOL if mode < 0.35 else [p for p in PRI_POOL if p >= 0]
+    tie_heavy = mode > 0.8                            # few distinct keys: ties decided by iteration order
+    if tie_heavy:
+        pool = [0, 0, 1]
+        shared = [et - 1, et, et - 1]
     for _ in range(n):
-        pri = rng.choice(PRI_POOL)
+        pri = rng.choice(pool)
         a, b = stamp(), stamp()
-        if rng.random() < 0.35:
+        if rng.random() < 0.35 or tie_heavy:
             b = None if rng.random() < 0.7 else 0
-        if rng.random() < 0.25:                       # equal keys: ties decided by iteration order
+        if rng.random() < 0.25 or (tie_heavy and rng.random() < 0.8):
             a = rng.choice(shared)
         if rng.random() < 0.1:
             a, b = b, a
@@ -367,6 +373,9 @@ class Real:
             e[op[2]].changed = js_val(op[3])
         elif k == "clearoid":
             e[op[2]].oid = None
+        elif k == "discard":
+            from cloudsync.types import IgnoreReason
+            e.ignored = IgnoreReason.DISCARDED
         elif k == "change":               # ["change", now, age]
             CLOCK.t = float(js_q(op[1]))
             got = st.change(float(js_q(op[2])))
@@ -427,6 +436,8 @@ def model_ops(op, real, pre_order=None, pre_rel=None):
         return [[7, op[1], op[2], stamp_sx(None if v in (None, False) else js_q(v))]]
     if k == "clearoid":
         return [[10, op[1], op[2]]]
+    if k == "discard":
+        return [[11, op[1]]]
     if k == "change":
         return [[9, q_sx(js_q(op[1])), q_sx(js_q(op[2])), pre_order]]
     raise AssertionError(k)
@@ -443,7 +454,7 @@ def gen_sequence(rng):
     nops = rng.choice([4, 8, 12, 20, 30, 40])
     nmax = rng.choice([1, 2, 3, 4, 6, 8, 12])
     serial = [0]
-    hazard = rng.random() < 0.15          # allow states that can make the `changed` setter recurse
+    hazard = rng.random() < 0.2          # allow states that can make the `changed` setter recurse
     trace = []                            # (op, model_ops, impl_result) filled by exec_sequence
 
     def tick():
@@ -482,9 +493,9 @@ def gen_sequence(rng):
             kinds += ["create"] * (6 if n < 2 else 2)
         if n:
             kinds += ["mark"] * 5 + ["punt"] * 4 + ["change"] * 6 + ["finished"] * 4 + ["setpri"] * 2 + \
-                     ["attach"] * 2 + ["repath"] + ["aged"] + ["force"] + ["raw"] * 2
+                     ["attach"] * 2 + ["repath"] + ["aged"] + ["force"] + ["raw"] * 2 + ["discard"]
             if hazard:
-                kinds += ["clearoid"] * 2
+                kinds += ["clearoid"] * 4
         k = rng.choice(kinds)
         i = rng.randrange(n) if n else 0
         if k == "create":
@@ -547,6 +558,10 @@ def gen_sequence(rng):
                 continue
             v = rng.choice([None, 0, 0, False, 1, grid(rng, 0, 60), clock, -grid(rng, 0, 4)])
             op = ["raw", i, rng.choice(sides), val_js(v)]
+        elif k == "discard":
+            if real.ents[i].is_discarded:
+                continue
+            op = ["discard", i]
         elif k == "clearoid":
             e = real.ents[i]
             sides = [s for s in (0, 1) if e[s].oid]
